@@ -312,6 +312,7 @@ SPECS["C19"] = dict(
         rapid("TestC19OOB", 300, 9000, sq=4, st=16),
         rapid("TestC19ClosedSession", 150, 5000, sq=2, st=8),
         rapid("TestC19OneSidedFEC", 150, 5000, sq=2, st=8),
+        plain("TestC19HandlerReentrancy", sq=1, st=1),
         plain("TestC19NoFEC", sq=1, st=1),
         rapid("TestC19ForeignConvOOB", 400, 12000, sq=2, st=8),
     ],
